@@ -163,7 +163,7 @@ func propC19(c c19Case) hh.Verdict {
 		if o := snapshotOwned(env); !reflect.DeepEqual(o, owned0) {
 			return hh.Fail("step %d: the execution modified values owned by the schema: before %v after %v", i, owned0, o)
 		}
-		obs := firstRes{issues: fmtIss(res.Norm(true))}
+		obs := firstRes{issues: fmtIss(res.Norm(st.Fmt != model.ValueTemplateFormatter))} // (messages that echo values may print addresses)
 		if res.NoIssues() {
 			// with issues, which PostTransforms ran depends on the visit order (documented global gating)
 			obs.dest = model.CanonJSON(dest.Elem())
@@ -249,7 +249,7 @@ func genC19(rt *rapid.T, cfg model.GenCfg) c19Case {
 				rep.Rot = rapid.IntRange(0, 3).Draw(rt, "rot2") // the same execution into another destination type
 			}
 			if rapid.IntRange(0, 2).Draw(rt, "refmt") == 0 {
-				rep.Fmt = rapid.SampledFrom([]string{"", "FMT-1", "FMT-2"}).Draw(rt, "fmt2") // the same execution under another formatter
+				rep.Fmt = rapid.SampledFrom([]string{"", "FMT-1", "FMT-2", model.ValueTemplateFormatter}).Draw(rt, "fmt2") // the same execution under another formatter
 			}
 			c.Steps = append(c.Steps, rep)
 			continue
@@ -257,7 +257,7 @@ func genC19(rt *rapid.T, cfg model.GenCfg) c19Case {
 		mode := rapid.SampledFrom([]string{"parse", "validate"}).Draw(rt, "mode")
 		typed := g.GenTyped(root)
 		st := c19Step{Mode: mode, Input: typed, Collect: rapid.SampledFrom([]string{"", "", "each", "all", "sanitize"}).Draw(rt, "collect"),
-			Fmt: rapid.SampledFrom([]string{"", "", "", "FMT-1", "FMT-2"}).Draw(rt, "fmt")}
+			Fmt: rapid.SampledFrom([]string{"", "", "", "FMT-1", "FMT-2", model.ValueTemplateFormatter}).Draw(rt, "fmt")}
 		if root.Kind == model.KStruct && rapid.IntRange(0, 2).Draw(rt, "rotate") == 0 {
 			st.Rot = rapid.IntRange(1, 3).Draw(rt, "rot")
 		}
